@@ -78,6 +78,12 @@ static int match_first(const void *elem, void *arg)
 	return *((const uint8_t *) elem) == *((uint8_t *) arg) ? 0 : 1;
 }
 
+/* position argument: "far=1" places it pos bytes below SIZE_MAX (wrap-around neighbourhood) */
+static size_t pos_arg(struct cmd *c)
+{
+	size_t pos = drv_uint(c, "pos", 0);
+	return drv_int(c, "far", 0) ? (size_t) 0 - pos : pos;
+}
 static void drv_step(struct cmd *c)
 {
 	const char *a = c->action;
@@ -123,19 +129,19 @@ static void drv_step(struct cmd *c)
 		free(tmp); free(keep);
 	}
 	else if (!strcmp(a, "crop")) {
-		int r = mpt_queue_crop(&q, drv_uint(c, "pos", 0), drv_uint(c, "n", 0));
+		int r = mpt_queue_crop(&q, pos_arg(c), drv_uint(c, "n", 0));
 		answer(c, r < 0 ? "refused" : "ok", 0, 0);
 	}
 	else if (!strcmp(a, "set")) {
 		int r;
 		data = drv_bytes(c, "data", &dl);
-		r = mpt_queue_set(&q, drv_uint(c, "pos", 0), dl, drv_int(c, "zero", 0) ? 0 : data);
+		r = mpt_queue_set(&q, pos_arg(c), dl, drv_int(c, "zero", 0) ? 0 : data);
 		answer(c, r < 0 ? "refused" : "ok", 0, 0);
 	}
 	else if (!strcmp(a, "get")) {
 		size_t n = drv_uint(c, "n", 0);
 		uint8_t *tmp = (uint8_t *) calloc(n + 1, 1);
-		int r = mpt_queue_get(&q, drv_uint(c, "pos", 0), n, tmp);
+		int r = mpt_queue_get(&q, pos_arg(c), n, tmp);
 		answer(c, r < 0 ? "refused" : "ok", tmp, r < 0 ? 0 : n);
 		free(tmp);
 	}
